@@ -80,6 +80,39 @@ int main() {
       snprintf(tail, sizeof tail, " sub %.17g %.17g %.17g vel %.17g %.17g %.17g", sub[0] / HALFPI, sub[1] / HALFPI, sub[2] / HALFPI,
                2 * v2[0] / HALFPI, 2 * v2[1] / HALFPI, 2 * v2[2] / HALFPI);
       print_state(tail);
+    } else if (op == "dsub") {
+      // dsub ax ay az k sa sb: qa = sa * (q * axisAngle(ax, k pi/2)), qb = sb * q -> "D" subQuat/(pi/2) (3) Da (9) Db (9)
+      mjtNum ax[3] = {N(1), N(2), N(3)}, r[4], qa[4], qb[4], sub[3], Da[9], Db[9];
+      mju_axisAngle2Quat(r, ax, N(4) * HALFPI);
+      mju_mulQuat(qa, Q, r);
+      for (int i = 0; i < 4; i++) { qa[i] *= N(5); qb[i] = Q[i] * N(6); }
+      mju_subQuat(sub, qa, qb);
+      mjd_subQuat(qa, qb, Da, Db);
+      // the single-output calls must agree with the two-output call
+      mjtNum Da1[9], Db1[9]; mjd_subQuat(qa, qb, Da1, nullptr); mjd_subQuat(qa, qb, nullptr, Db1);
+      int same = memcmp(Da, Da1, sizeof Da) == 0 && memcmp(Db, Db1, sizeof Db) == 0;
+      printf("D %.17g %.17g %.17g", sub[0] / HALFPI, sub[1] / HALFPI, sub[2] / HALFPI);
+      for (int i = 0; i < 9; i++) printf(" %.17g", Da[i]);
+      for (int i = 0; i < 9; i++) printf(" %.17g", Db[i]);
+      printf(" %d\n", same);
+    } else if (op == "dint") {
+      // dint vx vy vz scale -> "J" Dquat (9) Dvel (9) Dscale (3)
+      mjtNum v[3] = {N(1), N(2), N(3)}, Dq[9], Dv[9], Ds[3];
+      mjd_quatIntegrate(v, N(4), Dq, Dv, Ds);
+      printf("J");
+      for (int i = 0; i < 9; i++) printf(" %.17g", Dq[i]);
+      for (int i = 0; i < 9; i++) printf(" %.17g", Dv[i]);
+      for (int i = 0; i < 3; i++) printf(" %.17g", Ds[i]);
+      printf("\n");
+    } else if (op == "mulinv") {
+      mjtNum r[4]; mju_negQuat(r, Q); mju_mulQuat(Q, Q, r);
+      print_state();
+    } else if (op == "intzero") {
+      mjtNum v[3] = {N(1), N(2), N(3)}, qs = N(4);
+      mjtNum w[4] = {Q[0] * qs, Q[1] * qs, Q[2] * qs, Q[3] * qs};
+      mju_quatIntegrate(w, v, 0);
+      mju_copy4(Q, w);
+      print_state();
     } else if (op == "euler") {
       std::string seq = t.size() > 1 && t[1] != "-" ? t[1] : "";
       mjtNum e[3] = {N(2) * HALFPI, N(3) * HALFPI, N(4) * HALFPI}, r[4];
